@@ -254,9 +254,74 @@ func c09ExcludesLive(c *Ctx) {
 			}
 		}
 	}
+	// the walk that protects the live tree's links visits ALL of them: it is a diff against a tree
+	// loaded from an empty root on every path (a diff against the parent version protects only what
+	// the current version added: a node that an old diff reported removed and a later version links
+	// again, inherited unchanged by the current one, would stay on the deletion list)
+	emptyRootFn := c.P.LookupFunc("kv", "", "emptyRoot")
+	var onlyEmpty func(v ssa.Value, d int) bool
+	onlyEmpty = func(v ssa.Value, d int) bool {
+		if d > 6 {
+			return false
+		}
+		switch x := v.(type) {
+		case *ssa.Call:
+			return emptyRootFn != nil && x.Call.StaticCallee() == emptyRootFn
+		case *ssa.Phi:
+			for _, e := range x.Edges {
+				if !onlyEmpty(e, d+1) {
+					return false
+				}
+			}
+			return len(x.Edges) > 0
+		case *ssa.UnOp:
+			if al, ok := x.X.(*ssa.Alloc); ok && x.Op == token.MUL {
+				n := 0
+				for _, r := range *al.Referrers() {
+					if st, ok := r.(*ssa.Store); ok && st.Addr == ssa.Value(al) {
+						n++
+						if !onlyEmpty(st.Val, d+1) {
+							return false
+						}
+					}
+				}
+				return n > 0
+			}
+		}
+		return false
+	}
+	fullWalk, sawWalk := true, false
+	for _, call := range an.Calls(fn) {
+		if calleeLabel(call) != "DiffLinks" {
+			continue
+		}
+		rv := an.RecvValue(call)
+		crdtF := an.LookupField(c.P, "kv", "DB", "crdt")
+		if rv == nil || crdtF == nil || !an.HasField(rv, crdtF) {
+			continue // the pairwise diffs between a retired version and its successors
+		}
+		sawWalk = true
+		// the other tree: <X>.Mast where X comes from crdt.Load(..., root)
+		ok := false
+		an.DependsOn(call.Common().Args[len(call.Common().Args)-2], func(v ssa.Value) bool {
+			if cl, isCall := v.(*ssa.Call); isCall && calleeLabel(cl) == "Load" {
+				args := cl.Call.Args
+				if onlyEmpty(args[len(args)-1], 0) {
+					ok = true
+				}
+			}
+			return false
+		})
+		if !ok {
+			fullWalk = false
+		}
+	}
+	if sawWalk && !fullWalk {
+		subtracts = false
+	}
 	c.R.Cond(subtracts, rule, core.FuncName(fn)+": node candidates exclude the live tree's links", c.P.Pos(fn.Pos()),
 		"links of the retained current tree are removed from the deletion set",
-		"the deletion set is 'links a retired version had and its successor dropped'; nothing removes links that the current (or another retained) version has again — node objects are content-addressed, so a history that returns to earlier content (insert X, delete X, vacuum) deletes an object the current version refers to")
+		"the deletion set is 'links a retired version had and its successor dropped'; nothing removes ALL links that the current (or another retained) version has again (no walk of the live tree, or a walk that compares it with something else than an empty tree and so visits only part of it) — node objects are content-addressed, so a history that returns to earlier content (insert X, delete X, vacuum) deletes an object the current version refers to")
 	_ = fmt.Sprint
 }
 
